@@ -415,6 +415,8 @@ def check(prog, rep, tier):
                     break
                 cnt = [e for e in sf if e.name == "_els_added"][-1:]
                 cel = [e for e in sf if e.name == "_bloom"][-1:]
+                if cnt and cnt[0].value[0] == "c" and any(c.atom[0] == "loop0" and c.truth for c in p.conds):
+                    continue  # sub-filters were built but the frame loop did not run (no frame to restore on this path)
                 if len(cnt) != 1 or len(cel) != 1:
                     okf = ("frame shape", "a sub-filter frame does not restore exactly one counter and one cell array")
                     break
@@ -465,6 +467,20 @@ def check(prog, rep, tier):
                         okc = bool(vals) and vals <= Ls
                     elif okc:
                         okc = canon(T) == L
+                if not okc and s1 and s2 and allocs:
+                    # closed form: frame k starts at k * stride with stride = counter bytes + cells of one sub-filter
+                    rest_ = [x for x in allocs[0].value[2] if x[0] != "newb"]
+                    Lx = rest_[0] if len(rest_) == 1 else ("nary", "*", tuple(rest_))
+                    a0 = s1[0][2]
+                    ixs = [n for n in walk(a0) if n[0] == "ix"]
+                    if ixs:
+                        for S_ in {x for x in walk(a0)} | {x for x in walk(s2[0][3])}:
+                            cand = S_[2] if (S_[0] == "phi" and S_[3] == C(0)) else S_
+                            if canon(cand) == canon(("bin", "+", qs, Lx)):
+                                okc = canon(a0) == canon(("bin", "*", ixs[0], S_)) and canon(s1[0][3]) == canon(("bin", "+", a0, qs)) \
+                                    and canon(s2[0][2]) == canon(("bin", "+", a0, qs)) and canon(s2[0][3]) == canon(("bin", "+", a0, S_))
+                                if okc:
+                                    break
                 if not okc:
                     okf = ("cursor arithmetic", "the frame cursor does not advance by exactly the bytes consumed (counter + cells)")
                     break
